@@ -335,3 +335,42 @@ def run(ctx):
                      "after the deadline cancelled read_message (possibly in the middle of a message) handle goes on reading the same client: the unread rest of the message is taken for new messages", t.where(), w8 and hh8.describe_path(w8))
         if n8 == 0:
             r8.missing("timeout around read_message in Client::handle")
+
+    # ---------------- R9 the end of a COPY is awaited the way it was begun (D41)
+    r9 = ctx.rule("C03-R9", "a COPY .. FROM STDIN started by Execute in an extended batch is answered, after CopyDone, with CommandComplete only - ReadyForQuery comes after the Sync that libpq sends next; "
+                  "a COPY started by a simple Query is answered up to ReadyForQuery at once. The CopyDone/CopyFail arm of the transaction loop must therefore know how the COPY began "
+                  "(a value written in the Sync arm and tested before the arm waits for the server) - waiting for ReadyForQuery in both cases deadlocks the extended case: the Sync that would produce it is never read", floor=1)
+    if hh8:
+        code_sw = [sw for sw in sw8 if sw.ty in ("char", "u32") and {v for v, _ in sw.targets} >= {81, 83, 100, 99}]
+        if not code_sw:
+            r9.missing("message-code switch in Client::handle")
+        else:
+            arms = {v: t for v, t in code_sw[0].targets}
+            s_arm, c_arm = arms.get(83), arms.get(99)
+            waits = [c for c in hh8.calls("pgcat::client::Client::receive_server_message", "pgcat::client::Client::send_and_receive_loop", "pgcat::server::Server::recv") if hh8.dominates(c_arm, c.block)]
+            s_region = {b_ for b_ in range(hh8.nblocks) if hh8.dominates(s_arm, b_)}
+            written = set()
+            for b_, i, st in hh8.assigns():
+                if b_ in s_region:
+                    if not st["lhs"]["p"]:
+                        written |= {("local", "_%d %s" % (st["lhs"]["l"], "/".join(hh8.varnames.get(st["lhs"]["l"], ())))) for _ in [0] if hh8.varnames.get(st["lhs"]["l"])}
+                    else:
+                        fs = proj_fields(st["lhs"])
+                        if fs:
+                            written.add(("field", fs[-1]))
+            tested = set()
+            for sw in sw8:
+                if not hh8.dominates(c_arm, sw.block) or not any(w.block in hh8.reach([sw.block]) for w in waits):
+                    continue
+                vis = set()
+                for o in origins(hh8, hh8.blocks[sw.block]["term"]["op"], visited=vis, taint=True):
+                    if o.kind in ("place", "param"):
+                        tested |= {("field", p_[1:]) for p_ in o.proj if p_.startswith(".") and not p_[1:].isdigit()}
+                tested |= {("local", "_%d %s" % (l, "/".join(hh8.varnames.get(l, ())))) for l in vis if isinstance(l, int) and hh8.varnames.get(l)}
+            shared = sorted(x for x in (written & tested) if x[1] not in ("buffer", "message", "code", "server", "self", "stats"))
+            if not waits:
+                r9.missing("wait for the server in the CopyDone arm")
+            else:
+                r9.check(bool(shared), "copy-end-knows-how-the-copy-began", "the CopyDone arm tests %s, written by the Sync arm, before it waits for the server" % shared,
+                         "the CopyDone/CopyFail arm waits for the server's ReadyForQuery whatever started the COPY (nothing the Sync arm records is tested in it): for a COPY started through the extended protocol "
+                         "(libpq: Parse/Bind/Execute/Sync, data, CopyDone, Sync) the server answers CommandComplete and waits for the Sync, pgcat waits for ReadyForQuery and never reads that Sync - both sides hang", waits[0].where())
